@@ -270,6 +270,18 @@ func (ci *ConstructorInvoker) Invoke(
 	info *ConstructorInfo,
 	resolver DependencyResolver,
 ) (results []reflect.Value, err error) {
+	return ci.InvokeFunc(info.Value, info, resolver)
+}
+
+// InvokeFunc calls fn, whose signature info describes. The analysis cache is
+// keyed by code pointer, so closures, method values and reflect.MakeFunc
+// functions share one ConstructorInfo: the function to call must come from the
+// registration, not from the cache entry.
+func (ci *ConstructorInvoker) InvokeFunc(
+	fn reflect.Value,
+	info *ConstructorInfo,
+	resolver DependencyResolver,
+) (results []reflect.Value, err error) {
 	// Handle instance values
 	if !info.IsFunc {
 		// For instances, return the instance value directly
@@ -283,7 +295,7 @@ func (ci *ConstructorInvoker) Invoke(
 	}
 
 	// Call the constructor with panic recovery
-	results, err = ci.invokeWithRecovery(info, args)
+	results, err = ci.invokeWithRecovery(fn, info, args)
 	if err != nil {
 		return nil, err
 	}
@@ -302,7 +314,7 @@ func (ci *ConstructorInvoker) Invoke(
 }
 
 // invokeWithRecovery calls the constructor and recovers from any panics.
-func (ci *ConstructorInvoker) invokeWithRecovery(info *ConstructorInfo, args []reflect.Value) (results []reflect.Value, err error) {
+func (ci *ConstructorInvoker) invokeWithRecovery(fn reflect.Value, info *ConstructorInfo, args []reflect.Value) (results []reflect.Value, err error) {
 	defer func() {
 		if r := recover(); r != nil {
 			err = &PanicError{
@@ -313,7 +325,7 @@ func (ci *ConstructorInvoker) invokeWithRecovery(info *ConstructorInfo, args []r
 		}
 	}()
 
-	results = info.Value.Call(args)
+	results = fn.Call(args)
 	return results, nil
 }
 
